@@ -97,7 +97,7 @@ C07(i) ==
 C08Tol == NA * NF + 2
 C08(i) ==
   LET e == Ev(i) IN
-  IF IsStep(i) /\ e.main /\ ~e.pl /\ e.ts.type = LAST /\ Cfg.normalize_reward /\ PenN = 0 THEN
+  IF IsStep(i) /\ e.main /\ ~e.pl /\ e.ts.type = LAST /\ Cfg.normalize_reward /\ PenN = 0 /\ ~Cfg.injected THEN
     LET ret == acc + SumSeq(e.ts.reward.q)  tot == TotalFoodLevel(e.s) IN
     { <<"C08.return_eq_objective", Abs(ret * tot - EatenLevel(e.s) * FX) <= C08Tol * tot>> }
     \cup (IF AllEaten(e.s) THEN { <<"C08.return_is_one_when_all_collected", Abs(ret - FX) <= C08Tol>> } ELSE {})
@@ -115,7 +115,7 @@ C09(i) ==
       <<"C09.step_rel.static", u.agents.id = t.agents.id /\ u.agents.level = t.agents.level
                                 /\ u.food_items.id = t.food_items.id /\ u.food_items.level = t.food_items.level
                                 /\ u.food_items.position = t.food_items.position>>,
-      <<"C09.step_rel.step_count", u.step_count = t.step_count /\ u.step_count = e.i>>,
+      <<"C09.step_rel.step_count", u.step_count = t.step_count /\ (~Cfg.injected => u.step_count = e.i)>>,
       <<"C09.reward_eq", \A k \in Agents : Abs(Rq(e, k) - rv[k + 1]) <= RewardTol>>,
       <<"C09.done_eq", (e.ts.type = LAST) = IsLast(t)>>,
       <<"C09.discount_eq", \A k \in Agents : e.ts.discount.q[k + 1] = DiscountOf(t) * FX>> }
@@ -124,6 +124,7 @@ C09(i) ==
 (* ---------------- C10 ---------------- *)
 C10(i) ==
   LET e == Ev(i) IN
+  IF Cfg.injected THEN {} ELSE      \* injected start states (TLC dump) are not generator outputs
   (IF IsReset(i) THEN
      LET s == A(e.s)  ok == StateShape(s) IN
      { <<"C10.wellformed_fresh", ok /\ FreshInstance(s)>>,
